@@ -13,56 +13,76 @@ Theorem C03_complex_scorer_sound : forall seg i msm sc (ces : list (occur * dexp
   dmem (complex_scorer_of seg msm sc ces) i = bool_sem msm (map (fun c => (fst c, dmem (snd c) i)) ces).
 Proof. exact (fun seg i msm sc ces Hi H => complex_scorer_of_sound (fun _ _ => false) seg i Hi msm sc ces H). Qed.
 
+(* The one-clause shortcut of BooleanWeight::scorer() is re-read from the source on every run
+   (Generated.Constants.C03_SCORER_SINGLE_CLAUSE_CHECKS_MSM -> Compose.SHAPE).  The theorems below are
+   stated for the shape the source has now: the shortcut honours minimum_number_should_match.  If the
+   source goes back to the old shape this lemma no longer checks (and the old-shape theorems apply). *)
+Lemma shape_checks_msm : SHAPE = true.
+Proof. vm_compute. reflexivity. Qed.
+
+Lemma no_f31_class q : h31 SHAPE q = false.
+Proof. unfold h31. now rewrite shape_checks_msm. Qed.
+Lemma no_f31_class_below sc q : h31_below_root SHAPE sc q = false.
+Proof. unfold h31_below_root. now rewrite shape_checks_msm. Qed.
+
 (* Weight::scorer of an arbitrary query tree (arbitrary nesting), over ANY leaf scorers that are correct:
-   the scorer contains doc id i iff document i matches.  Outside the known class F31. *)
+   the scorer contains doc id i iff document i matches.  Every tree, no exclusion. *)
 Theorem C03_boolean_sound_any_leaves : forall accepts seg (leaf_scorer : bool -> leaf -> dexpr),
   (forall sc l i, i < max_doc seg -> dmem (leaf_scorer sc l) i = leaf_matches accepts (doc_at seg i) l) ->
   (forall sc l n, leaf_scorer sc l = DAll n -> n = max_doc seg) ->
-  forall sc q, has_f31 q = false ->
-  forall b1 i, i < max_doc seg ->
-  dmem (scorer_model seg leaf_scorer sc b1 q) i = matches accepts (doc_at seg i) q.
-Proof. exact (fun accepts seg ls H1 H2 => scorer_model_sound accepts seg ls H1 H2). Qed.
+  forall sc q b1 i, i < max_doc seg ->
+  dmem (scorer_model seg SHAPE leaf_scorer sc b1 q) i = matches accepts (doc_at seg i) q.
+Proof.
+  intros accepts seg ls H1 H2 sc q b1 i Hi.
+  exact (scorer_model_sound accepts seg SHAPE ls H1 H2 sc q (no_f31_class q) b1 i Hi).
+Qed.
 
 (* ... and with the concrete leaf scorers (term: Empty / All / TermScorer by doc_freq; phrase: Empty when a
    term is missing), as lists: what a collector receives on a segment with deletes is `eval`. *)
-Theorem C03_boolean_sound : forall accepts seg sc b1 q, has_f31 q = false ->
-  map (doc_at seg) (collected seg (scorer_model seg (std_leaf_scorer accepts seg) sc b1 q)) = eval accepts seg q.
+Theorem C03_boolean_sound : forall accepts seg sc b1 q,
+  map (doc_at seg) (collected seg (scorer_model seg SHAPE (std_leaf_scorer accepts seg) sc b1 q)) = eval accepts seg q.
 Proof.
-  intros accepts seg sc b1 q HF. rewrite <- eval_ids_eval. f_equal. apply collected_eq.
-  intros i Hi. exact (scorer_model_sound accepts seg _ (std_leaf_sound accepts seg) (std_leaf_allok accepts seg) sc q HF b1 i Hi).
+  intros accepts seg sc b1 q. rewrite <- eval_ids_eval. f_equal. apply collected_eq.
+  intros i Hi. exact (scorer_model_sound accepts seg SHAPE _ (std_leaf_sound accepts seg) (std_leaf_allok accepts seg) sc q (no_f31_class q) b1 i Hi).
 Qed.
 
 (* Collecting ids / ranking (for_each, for_each_no_score, for_each_pruning on the root weight). *)
-Theorem C03_collect_sound : forall accepts seg sc q, has_f31_below_root sc q = false ->
-  map (doc_at seg) (collected seg (collect_model seg (std_leaf_scorer accepts seg) sc q)) = eval accepts seg q.
+Theorem C03_collect_sound : forall accepts seg sc q,
+  map (doc_at seg) (collected seg (collect_model seg SHAPE (std_leaf_scorer accepts seg) sc q)) = eval accepts seg q.
 Proof.
-  intros accepts seg sc q HF. rewrite <- eval_ids_eval. f_equal. apply collected_eq.
-  intros i Hi. exact (collect_model_sound accepts seg _ (std_leaf_sound accepts seg) (std_leaf_allok accepts seg) sc q HF i Hi).
+  intros accepts seg sc q. rewrite <- eval_ids_eval. f_equal. apply collected_eq.
+  intros i Hi. exact (collect_model_sound accepts seg SHAPE _ (std_leaf_sound accepts seg) (std_leaf_allok accepts seg) sc q (no_f31_class_below sc q) i Hi).
 Qed.
 
 (* Counting (Weight::count: doc_freq shortcut without deletes, alive bitset otherwise) agrees. *)
-Theorem C03_count_agrees : forall accepts seg sc q, has_f31 q = false ->
-  count_model accepts seg sc q = length (eval accepts seg q).
-Proof. exact count_model_agrees. Qed.
+Theorem C03_count_agrees : forall accepts seg sc q,
+  count_model accepts seg SHAPE sc q = length (eval accepts seg q).
+Proof. exact (fun accepts seg sc q => count_model_agrees accepts seg SHAPE sc q (no_f31_class q)). Qed.
 
-(* Scoring enabled or disabled: the same documents. *)
-Theorem C03_scoring_irrelevant : forall accepts seg q,
-  has_f31_below_root true q = false -> has_f31_below_root false q = false ->
-  collected seg (collect_model seg (std_leaf_scorer accepts seg) true q)
-  = collected seg (collect_model seg (std_leaf_scorer accepts seg) false q).
+(* Counting, collecting and ranking agree with each other. *)
+Theorem C03_count_is_collected : forall accepts seg sc sc' q,
+  count_model accepts seg SHAPE sc q = length (collected seg (collect_model seg SHAPE (std_leaf_scorer accepts seg) sc' q)).
 Proof.
-  intros accepts seg q HT HF.
-  rewrite !(collected_eq accepts seg _ q); [reflexivity| |]; intros i Hi.
-  - exact (collect_model_sound accepts seg _ (std_leaf_sound accepts seg) (std_leaf_allok accepts seg) _ q HF i Hi).
-  - exact (collect_model_sound accepts seg _ (std_leaf_sound accepts seg) (std_leaf_allok accepts seg) _ q HT i Hi).
+  intros accepts seg sc sc' q. rewrite C03_count_agrees, <- (C03_collect_sound accepts seg sc' q). now rewrite map_length.
 Qed.
 
-(* in particular for every tree without a node of class F31 *)
-Theorem C03_scoring_irrelevant_no_f31 : forall accepts seg q, has_f31 q = false ->
-  collected seg (collect_model seg (std_leaf_scorer accepts seg) true q)
-  = collected seg (collect_model seg (std_leaf_scorer accepts seg) false q).
+(* Scoring enabled or disabled: the same documents, for every query tree. *)
+Theorem C03_scoring_irrelevant : forall accepts seg q,
+  collected seg (collect_model seg SHAPE (std_leaf_scorer accepts seg) true q)
+  = collected seg (collect_model seg SHAPE (std_leaf_scorer accepts seg) false q).
 Proof.
-  intros accepts seg q H. apply C03_scoring_irrelevant; now apply has_f31_below_root_weaker.
+  intros accepts seg q.
+  rewrite !(collected_eq accepts seg _ q); [reflexivity| |]; intros i Hi;
+    exact (collect_model_sound accepts seg SHAPE _ (std_leaf_sound accepts seg) (std_leaf_allok accepts seg) _ q (no_f31_class_below _ q) i Hi).
+Qed.
+
+(* The same statements for the OLD shape of the shortcut (minimum ignored for a single clause) hold exactly
+   outside the class F31 -- kept so that the class stays characterised. *)
+Theorem C03_boolean_sound_old_shape : forall accepts seg sc b1 q, has_f31 q = false ->
+  map (doc_at seg) (collected seg (scorer_model seg false (std_leaf_scorer accepts seg) sc b1 q)) = eval accepts seg q.
+Proof.
+  intros accepts seg sc b1 q HF. rewrite <- eval_ids_eval. f_equal. apply collected_eq.
+  intros i Hi. exact (scorer_model_sound accepts seg false _ (std_leaf_sound accepts seg) (std_leaf_allok accepts seg) sc q HF b1 i Hi).
 Qed.
 
 (* Any split of the corpus into segments gives the answer of the whole corpus. *)
@@ -93,23 +113,30 @@ Definition ex_q : query :=
            (MustNot, QLeaf (LRange 1 (Incl (VI64 13)) Unb))].
 
 Example ex_nonvacuous :
-  has_f31 ex_q = false /\
   uids (eval ex_acc ex_seg ex_q) = [10; 12] /\
-  collected ex_seg (collect_model ex_seg (std_leaf_scorer ex_acc ex_seg) true ex_q) = [0; 2] /\
-  count_model ex_acc ex_seg false ex_q = 2%nat.
+  collected ex_seg (collect_model ex_seg SHAPE (std_leaf_scorer ex_acc ex_seg) true ex_q) = [0; 2] /\
+  count_model ex_acc ex_seg SHAPE false ex_q = 2%nat.
 Proof. vm_compute. repeat split; reflexivity. Qed.
 
-(* ---------------------------------------------------------------- F31 (known finding) *)
-(* A boolean query with a single should clause and minimum_number_should_match = 2 cannot match, and
-   for_each agrees (complex_scorer), but scorer()/count() return the clause's documents. *)
+(* ---------------------------------------------------------------- F31 (fixed in /repo) *)
+(* Witness for the OLD shape of the shortcut (scorer() ignored the minimum for a single clause): a boolean
+   query with a single should clause and minimum_number_should_match = 2 cannot match, and for_each agreed
+   (complex_scorer), but scorer()/count() returned the clause's documents, also when nested. *)
 Definition f31_q : query := QBool 2 [(Should, QLeaf (LTerm 0 3))].
 Theorem C03_single_clause_msm_refuted :
   has_f31 f31_q = true /\
   eval ex_acc ex_seg f31_q = [] /\
-  collected ex_seg (collect_model ex_seg (std_leaf_scorer ex_acc ex_seg) false f31_q) = [] /\
-  count_model ex_acc ex_seg false f31_q = 2%nat /\
-  collected ex_seg (scorer_model ex_seg (std_leaf_scorer ex_acc ex_seg) false true
+  collected ex_seg (collect_model ex_seg false (std_leaf_scorer ex_acc ex_seg) false f31_q) = [] /\
+  count_model ex_acc ex_seg false false f31_q = 2%nat /\
+  collected ex_seg (scorer_model ex_seg false (std_leaf_scorer ex_acc ex_seg) false true
                       (QBool 0 [(Must, f31_q); (Must, QAll)])) = [0; 2].
+Proof. vm_compute. repeat split; reflexivity. Qed.
+
+(* the same inputs under the current shape: nothing matches, everywhere *)
+Example f31_regression :
+  count_model ex_acc ex_seg SHAPE false f31_q = 0%nat /\
+  collected ex_seg (scorer_model ex_seg SHAPE (std_leaf_scorer ex_acc ex_seg) false true
+                      (QBool 0 [(Must, f31_q); (Must, QAll)])) = [].
 Proof. vm_compute. repeat split; reflexivity. Qed.
 
 (* ---------------------------------------------------------------- phrases *)
@@ -159,7 +186,8 @@ Print Assumptions C03_boolean_sound.
 Print Assumptions C03_collect_sound.
 Print Assumptions C03_count_agrees.
 Print Assumptions C03_scoring_irrelevant.
-Print Assumptions C03_scoring_irrelevant_no_f31.
+Print Assumptions C03_count_is_collected.
+Print Assumptions C03_boolean_sound_old_shape.
 Print Assumptions C03_segmentation.
 Print Assumptions C03_deleted_never_appear.
 Print Assumptions C03_merge_transparent.
